@@ -73,3 +73,13 @@ claim("C07", "other",
       "the code's binary constants; quick tier samples the named pairs (every 2nd / 16th).",
       "shadow-symbolic execution in two interpreter modes + z3 equivalence of shipped terms",
       "DESIGN.md 4/C07", "symnum")
+
+claim("C10", "other",
+      "For all 12 ordered pairs of {K, degC, degF, R} x prefix on source x prefix on target the real "
+      "in_unit runs on a symbolic magnitude (int/float/Decimal); z3 decides for ALL m that the result "
+      "equals the affine definition through kelvin (built from the recorded declarations) within 1e-9, "
+      "absolute zero maps to absolute zero, differences scale by the degree ratio, there-and-back is the "
+      "identity, and ==/< across scales agree with kelvin values away from ties.",
+      "Exact reals over the binary constants 273.15, 459.67, 5/9 present in the source; quick tier uses "
+      "5 prefixes (none, k, m, M, micro), thorough all registered SI prefixes.",
+      "shadow-symbolic execution of real in_unit/==/< + z3 LRA vs affine oracle", "DESIGN.md 4/C10", "symnum")
